@@ -188,6 +188,9 @@ fn check(run: &Run, kind: Kind, text: &str, origin: &str) {
             let mut file = loc.split(':').next().unwrap_or("").to_string();
             if let Some(k) = file.find("/library/") {
                 file = format!("std{}", &file[k..]);
+            } else if let Some(k) = file.rfind("/src/") {
+                // relative to the crate root: the key must not depend on where the checkout lives
+                file = file[k + 1..].to_string();
             }
             let kindmsg: String = msg.chars().filter(|c| !c.is_ascii_digit()).take(90).collect();
             run.violation(
